@@ -36,7 +36,20 @@ def find_primitives(prog, cls):
             if has_none_default:
                 role = "write1"
             elif nparams == 2:
-                role = "writen"
+                # (register, buffer) or (register, one value): a buffer parameter is measured, sliced in or concatenated; a single value
+                # is stored as one element
+                p2 = a.args[2].arg
+                as_buffer = False
+                for n in iter_own_nodes(f.node):
+                    if isinstance(n, ast.Call) and isinstance(n.func, ast.Name) and n.func.id == "len" and any(isinstance(x, ast.Name) and x.id == p2 for x in ast.walk(n)):
+                        as_buffer = True
+                    if isinstance(n, ast.BinOp) and isinstance(n.op, ast.Add) and any(isinstance(x, ast.Name) and x.id == p2 for x in (n.left, n.right)):
+                        as_buffer = True
+                    if isinstance(n, ast.Assign) and isinstance(n.value, ast.Name) and n.value.id == p2 and any(isinstance(t, ast.Subscript) and isinstance(t.slice, ast.Slice) for t in n.targets):
+                        as_buffer = True
+                role = "writen" if as_buffer else "write1"
+            elif nparams == 1:
+                role = "cmd"          # a data-less command (NOP, FLUSH_TX, ..): the same transfer as write1 without a value
         if role is None or role in prims:
             raise AnalysisError("cannot classify SPI primitive %s" % f.qualname)
         prims[role] = f
@@ -67,7 +80,7 @@ def find_ce_field(prog, cls):
 
 def find_status_cache(prog, cls, prims):
     """('item', field, 0) for the full driver (MISO buffer) or ('field', name) for lite"""
-    order = [prims[r] for r in ("read1", "readn", "write1", "writen") if r in prims]
+    order = [prims[r] for r in ("read1", "readn", "write1", "writen", "cmd") if r in prims]
     # lite: self._status = in_buf[0]
     for f in order:
         for n in iter_own_nodes(f.node):
@@ -241,6 +254,9 @@ class RadioModel(Model):
                         merged = newb + oldb[len(newb):width]
                         snap = Bytes([(("const", merged), Const(len(merged)))], "bytes")
                 self.reg_set(st, rc, snap)
+            return [(st, Const(None))]
+        if role == "cmd":
+            it.event(st, fr, "cmd", node, (reg, None, txn))
             return [(st, Const(None))]
         if role == "write1":
             val = a[1] if len(a) > 1 else kwargs.get("value")
